@@ -20,6 +20,12 @@ def bump(v):
         if not v:
             return [1]
         w = list(v); w[-1] = bump(w[-1]); return w
+    if isinstance(v, dict):
+        w = dict(v)
+        for k in sorted(w):
+            if isinstance(w[k], (int, bool)):
+                w[k] = bump(w[k]); return w
+        k = sorted(w)[0]; w[k] = bump(w[k]); return w
     raise ValueError(v)
 
 def setpath(ev, path, fn):
@@ -94,7 +100,8 @@ def main():
             mp = os.path.join(ck.tmp, "mut.ndjson")
             open(mp, "w").write("\n".join(mut) + "\n")
             v2, n2, _ = ck._tlc_trace(module, mp, env_extra=envx)
-            ok = v2 == "rejected" and n2 in (i + 1, i + 2)
+            # an observation is rejected at its own event; a corrupted INPUT (Seg) surfaces at the next observation
+            ok = v2 == "rejected" and (n2 in (i + 1, i + 2) or (evname == "Seg" and n2 > i))
             res["corruptions"].append({"event": evname, "field": path, "line": i + 1, "verdict": v2, "at": n2, "binds": ok})
             if not ok:
                 bad += 1
